@@ -131,17 +131,23 @@ def add (lb numBits : Nat) (x y : BVar) : Except BStop (BVar × Bool) :=
 def addAt (k : Nat) (v b : Nat) (ls sbs : List Nat) : List Nat × List Nat :=
   (ls.set k (ls.getD k 0 + v), sbs.set k (boundOfAddition (sbs.getD k 0) b))
 
-/-- The schoolbook products of `mul` before normalisation: limb `k` is `Σ_{i+j=k} xᵢ·yⱼ`. -/
-def mulRaw (x y : BVar) : BVar := Id.run do
-  let n := x.limbs.length + y.limbs.length - 1
-  let mut ls := List.replicate n 0
+/-- The schoolbook products of `mul` before normalisation, limb values: limb `k` is
+`Σ_{i+j=k} xᵢ·yⱼ` (row `i` is `xᵢ·y` shifted by `i` limbs). -/
+def mulLimbs : List Nat → List Nat → List Nat
+  | [], _ => []
+  | x :: xs, ys => zipAddLimbs (ys.map (fun y => x * y)) (0 :: mulLimbs xs ys)
+
+/-- The size bounds `mul` tracks for those products (same accumulation order as the code:
+`for i { for j { bound[i+j] = bound_of_addition(bound[i+j], bx[i] + by[j]) } }`). -/
+def mulBoundsLoop (xsb ysb : List Nat) : List Nat := Id.run do
+  let n := xsb.length + ysb.length - 1
   let mut sbs := List.replicate n 0
-  for (xi, i) in x.limbs.zipIdx do
-    for (yj, j) in y.limbs.zipIdx do
-      let r := addAt (i + j) (xi * yj) (x.sb.getD i 0 + y.sb.getD j 0) ls sbs
-      ls := r.1
-      sbs := r.2
-  return ⟨ls, sbs⟩
+  for (bx, i) in xsb.zipIdx do
+    for (by', j) in ysb.zipIdx do
+      sbs := sbs.set (i + j) (boundOfAddition (sbs.getD (i + j) 0) (bx + by'))
+  return sbs
+
+def mulRaw (x y : BVar) : BVar := ⟨mulLimbs x.limbs y.limbs, mulBoundsLoop x.sb y.sb⟩
 
 /-- `mul`. -/
 def mul (lb numBits : Nat) (x y : BVar) : Except BStop (BVar × Bool) := do
